@@ -1,18 +1,20 @@
-(** Correspondence for C07: each case is one call of the real Go code
-    (via = 0: ClientState.CheckHeaderAndUpdateState on the real client store, no rollback;
-     via = 1: 02-client Keeper.UpdateClient), with the state projection read back from the
-    store before and after. *)
+(** Correspondence for C07: each case is one header submitted to the real Go code twice from the
+    same state: ClientState.CheckHeaderAndUpdateState on the real client store (no rollback around
+    it) and 02-client Keeper.UpdateClient, with the state projection read back from the store
+    before and after each call. *)
 From Tibc Require Import Base.Bytes Clients.Tm.
 From Coq Require Export ZArith.
 
 Record c07_case := C07 {
   k_now : Z;
-  k_via : N;
-  k_pre : kstate;
+  k_pre : kstate;            (* client state + client store before the calls *)
   k_hd : header;
-  k_ok : bool;               (* no error (and no panic) *)
-  k_post : kstate;           (* via 0: returned client state + store after the call; via 1: stored client state + store *)
-  k_ret : option cons        (* via 0, accepted: the returned consensus state *)
+  k_drun : bool;             (* the direct call was made (needs a client state) *)
+  k_dok : bool;              (* direct call: no error (and no panic) *)
+  k_dpost : kstate;          (* direct call: returned client state + store after the call (no rollback) *)
+  k_dret : option cons;      (* direct call, accepted: the returned consensus state *)
+  k_kok : bool;              (* keeper call: no error *)
+  k_kpost : kstate           (* keeper call: stored client state + store afterwards *)
 }.
 
 Definition height_eq (a b : height) : bool := height_eqb a b.
@@ -48,23 +50,27 @@ Definition opt_cons_eq (a b : option cons) : bool :=
   | _, _ => false
   end.
 
-Definition c07_case_ok (c : c07_case) : bool :=
-  if N.eqb (k_via c) 0 then
+Definition c07_direct_ok (c : c07_case) : bool :=
+  if k_drun c then
     match k_pre c with
     | None => false          (* the harness never calls the client code without a client *)
     | Some (cl, st) =>
         match check_header_and_update (k_now c) cl st (k_hd c) with
         | Some (cl', co', st') =>
-            k_ok c && kstate_eq (k_post c) (Some (cl', st')) && opt_cons_eq (k_ret c) (Some co')
+            k_dok c && kstate_eq (k_dpost c) (Some (cl', st')) && opt_cons_eq (k_dret c) (Some co')
         | None =>
-            negb (k_ok c) && kstate_eq (k_post c) (k_pre c) && opt_cons_eq (k_ret c) None
+            negb (k_dok c) && kstate_eq (k_dpost c) (k_pre c) && opt_cons_eq (k_dret c) None
         end
     end
-  else
-    match keeper_update (k_now c) (k_pre c) (k_hd c) with
-    | Some r => k_ok c && kstate_eq (k_post c) (Some r)
-    | None => negb (k_ok c) && kstate_eq (k_post c) (k_pre c)
-    end.
+  else match k_pre c with None => true | Some _ => false end.
+
+Definition c07_keeper_ok (c : c07_case) : bool :=
+  match keeper_update (k_now c) (k_pre c) (k_hd c) with
+  | Some r => k_kok c && kstate_eq (k_kpost c) (Some r)
+  | None => negb (k_kok c) && kstate_eq (k_kpost c) (k_pre c)
+  end.
+
+Definition c07_case_ok (c : c07_case) : bool := c07_direct_ok c && c07_keeper_ok c.
 
 Fixpoint mismatches_from {A} (ok : A -> bool) (i : N) (l : list A) : list N :=
   match l with
